@@ -276,6 +276,14 @@ class VCGen:
             for name, goal in self.spec.post(self, st):
                 self.oblige(f"ensures:{name}", st, goal)
             return []
+        if isinstance(s, ast.Continue) and getattr(self, "_cont", None):
+            self._cont[-1].append(st)       # joins the end-of-body states of the innermost loop (invariant re-established there)
+            return []
+        if isinstance(s, ast.Break) and getattr(self, "_brk", None):
+            self._brk[-1].append(st)        # leaves the innermost loop WITHOUT the negated loop condition
+            return []
+        if isinstance(s, ast.Pass):
+            return [st]
         raise ExtractError(f"unsupported statement {ast.unparse(s)[:80]}")
 
     def tuple_or_expr(self, e, st):
@@ -347,7 +355,13 @@ class VCGen:
         exit_.pc.append(z3.Not(self.cond(s.test, exit_) if kind == "while" else self.spec.for_cond(self, exit_, lid, s)))
         if kind == "for":
             self.spec.for_bind(self, body, lid, s)
+        if not hasattr(self, "_cont"):
+            self._cont, self._brk = [], []
+        self._cont.append([])
+        self._brk.append([])
         ends = self.block(s.body, body)
+        ends = ends + self._cont.pop()
+        broken = self._brk.pop()
         for e in ends:
             if kind == "for":
                 self.spec.for_step(self, e, lid, s)
@@ -357,7 +371,7 @@ class VCGen:
         self.hook(f"loopexit#{lid}", exit_)
         for name, goal in spec.get("at_exit", lambda g, s_: [])(self, exit_):
             self.oblige(f"exit:loop{lid}:{name}", exit_, goal)
-        return [exit_]
+        return [exit_] + broken
 
     # ---- driver ----------------------------------------------------------------------------------------------------
     def run(self):
